@@ -28,6 +28,9 @@ CHECKS = {
  "C14": ("exploration", "differential runtime monitor: reference policy evaluator / glob matcher / validity judge vs direct calls of the exported auth functions (exhaustive glob space up to length 4/5 over {a,b,*,?}) and vs real requests under generated policies",
    "The exported evaluator, glob matcher and document validator are called on millions of generated (policy, caller, action, resource) and (pattern, subject) cases and compared with a reference written from the property statement; the glob space over {a,b,*,?} is enumerated completely up to length 4 (quick) / 5 (thorough); invalid documents are PUT over a valid policy and the old policy must stay in force; real requests by two users under generated policies are compared with the reference decision.",
    "Trusts the reference evaluator; documents whose validity the statement leaves open (wildcard action with one resource kind) are generated but not judged.", "3/C14"),
+ "C16": ("exploration", "reference naming predicate vs IsValidBucketName and real CreateBucket; settings round-trip monitor with restarts and byte-exact snapshots; ListBuckets ownership/paging chains; hook-point scheduler for DeleteBucket against concurrent uploads (both directions, same/other process); stress with conservation check; race lane",
+   "Bucket names are generated against the core S3 rules; each bucket setting is put/deleted/read back on two gateway processes with a restart in between; creating an existing bucket by three kinds of caller must leave a byte-exact snapshot unchanged; every ListBuckets prefix/max-buckets/continuation chain for three owners is compared with the ownership model; DeleteBucket is held at each of its steps while an upload completes (and the converse) and the outcome pair is judged (never both acknowledged with the object lost).",
+   "Trusts the hook placement, the core-rules reading of 'S3 naming rules' (extended rules not judged). Known finding: an upload in flight re-creates a bucket that DeleteBucket removed meanwhile.", "3/C16"),
 }
 PENDING_REASON = "check not yet built in this session (under construction; see DESIGN.md section 3)"
 props=[json.loads(l)["id"] for l in open(os.path.join(V,"properties.jsonl"))]
